@@ -59,7 +59,7 @@ def main():
                     for t in dst:
                         if os.path.exists(t): os.remove(t)
                 pk = "./" + pkgdir(demos[0]) if pkgdir(demos[0]) != "." else "."
-                democmd = f"go test -vet=off -count=1 -timeout 180s -run '{runre}' {pk}"
+                democmd = f"go test {os.environ.get('SEED_TEST_FLAGS', '')} -vet=off -count=1 -timeout 180s -run '{runre}' {pk}"
                 rc, out, dt = sh(f"git apply {patch}", wt); rec("git apply patch.diff", rc, out, dt)
                 if rc: print(sid, "REJECT: patch does not apply"); continue
                 rc, out, dt = sh("go build ./... && go vet ./...", wt); rec("go build ./... && go vet ./...", rc, out, dt)
